@@ -37,8 +37,15 @@ claim("C07", "strict-origin and accept-iff clauses: strict acceptance implies an
              "per loader under contract")
 claim("C20", "implicit frame clause `modifies nothing` on every unit (any store to a non-fresh object is an obligation) and "
              "freshness of built containers")
-claim("C01", "value clauses of loaders (result equals constructor applied to the dumped form) for scalars; container loaders map "
-             "element-wise; round-trip lemmas over loader+dumper contracts are being added")
+claim("C01", "loader value clauses (result equals the constructor applied to the dumped form) for scalars, enums, flags and literals; "
+             "the model round trip as a lemma over the generated loader and dumper contracts instantiated from the same independent "
+             "layout (the dumper writes every field to exactly the path the loader reads it from, the loader accepts every tree of that "
+             "shape and binds the value to the right constructor parameter); typing.Self resolves to the nearest enclosing model "
+             "(find_owner_with_field, loop invariant)",
+      note=NOTE + " C01-specific: the lemma is stated in props/C01.py and rests on the GENPROG obligations tagged C01 (bounded over the "
+                  "program family, unbounded over inputs); round trips of iterable/dict/tuple/union containers follow from the element-wise "
+                  "value clauses of their loaders only where a dumper contract exists (enum/flag/literal/scalars) — container dumpers are "
+                  "not yet under contract.")
 
 claim("C09", "per-function contracts on the resolution machinery: ExactOriginCombiner (flush leaves the buffer empty, emitted items in "
              "order), both routers' route_handler (first match at/after the offset, loop invariant), BasicRequestBus._send_inner "
